@@ -863,6 +863,7 @@ func runC03(c *Ctx) {
 	}
 	c03IfaceArith(c)
 	c03PtrScalarEq(c)
+	c03DirectiveNilPaths(c)
 	c03Synthetic(c, envs[0])
 	for _, k := range []string{"check:accepted", "check:rejected", "oracle:static-runs", "oracle:mutants-rejected", "nested:well-typed", "nested:mutants",
 		"nonstrict:fixed", "nonstrict:random", "nonstrict:accepted", "nonstrict:typed-runs"} {
@@ -1331,3 +1332,58 @@ func compileRunOpts(src string, env interface{}, opts []expr.Option) (rv realVer
 }
 
 var _ = rand.Int
+
+// c03DirectiveNilPaths: result directives on statically typed programs whose value is nil on one path — a nil-safe
+// member chain through a nil pointer (`P?.Total`: every operand statically typed, static type exactly int64) and a
+// conditional with a nil branch.  Whenever the run succeeds the result must be exactly of the requested kind; a nil
+// failure is value-dependent and allowed.  Real code only (seed c03_7: the compiler skipped the cast epilogue when the
+// root's static kind already matched the directive, so these runs succeeded with an untyped nil).
+func c03DirectiveNilPaths(c *Ctx) {
+	type inner struct {
+		Total int64
+		Ratio float64
+		Ok    bool
+		Next  *inner
+	}
+	type env struct {
+		P, Q *inner
+		B    bool
+		I64  int64
+		F64  float64
+	}
+	full := &inner{Total: 7, Ratio: 2.5, Ok: true}
+	envs := []env{{P: nil, Q: full, B: false, I64: 3, F64: 1.5}, {P: full, Q: &inner{Next: nil}, B: true, I64: 3, F64: 1.5}}
+	probes := []struct {
+		src string
+		ex  int
+	}{
+		{"P?.Total", 2}, {"P?.Ratio", 3}, {"P?.Ok", 1}, {"Q?.Next?.Total", 2}, {"Q.Next?.Ratio", 3}, {"P?.Next?.Ok", 1},
+		{"B ? I64 : nil", 2}, {"B ? nil : I64", 2}, {"B ? F64 : nil", 3}, {"B ? nil : F64", 3}, {"B ? B : nil", 1}, {"B ? nil : B", 1},
+		{"B ? P?.Total : Q?.Total", 2}, {"(B ? P : Q)?.Ratio", 3},
+	}
+	for ei, e := range envs {
+		for _, pr := range probes {
+			for _, optimize := range []bool{false, true} {
+				opts := []expr.Option{expr.Env(e), expr.Optimize(optimize), c03Expects[pr.ex].opt()}
+				rv := compileRunOpts(pr.src, e, opts)
+				c.R.Count("directive-nil-paths", 1)
+				if !rv.ran || rv.rerr != "" {
+					continue
+				}
+				want := c03Expects[pr.ex].kind
+				if rv.out == nil || reflect.TypeOf(rv.out).Kind() != want || reflect.TypeOf(rv.out).PkgPath() != "" {
+					key := "c03:as-kind-not-exact:" + c03Expects[pr.ex].name + ":nil-safe-chain"
+					if strings.Contains(pr.src, "nil") {
+						key = "c03:as-kind-not-exact:" + c03Expects[pr.ex].name + ":nil-literal-branch"
+					}
+					violateKeyed16(c, Violation{What: "a successful run under As* returns a value that is not exactly of the requested kind (nil path)", Key: key,
+						Input:  map[string]string{"expr": pr.src, "directive": c03Expects[pr.ex].name, "env": fmt.Sprintf("#%d P nil=%v B=%v", ei, e.P == nil, e.B), "optimize": fmt.Sprint(optimize)},
+						Expect: want.String(), Got: fmt.Sprintf("%T (%v)", rv.out, rv.out)})
+				}
+			}
+		}
+	}
+	if c.R.Counters["directive-nil-paths"] == 0 {
+		c.R.Mismatch("generator", "directive-nil-paths", "no probe ran", "")
+	}
+}
